@@ -53,7 +53,11 @@ contract(f'{TC}::TrajectoryCalc.zero_angle', props=('C02', 'C10'),
                                                     'zeroing-run-height-is-a-function-of-the-elevation-used']},
          at_calls={f'{TC}::TrajectoryCalc._integrate': [
              ('every-zeroing-run-is-of-this-shot-to-the-horizontal-zero-distance-without-recording',
-              'same_object(shot_info, caller_shot_info) and maximum_range == caller_zero_distance and filter_flags == 0')]})
+              'same_object(shot_info, caller_shot_info) and maximum_range == caller_zero_distance and filter_flags == 0'),
+             # C18: cMaxIterations bounds the number of zeroing runs (iterations_count = runs completed so far, one run per
+             # iteration): a run is only started while fewer than the configured maximum have been made
+             ('a-zeroing-run-is-only-started-while-fewer-than-cMaxIterations-runs-have-been-made',
+              'caller_iterations_count >= 0 and caller_iterations_count < self._config.cMaxIterations', 'clause', ('C18', 'C02'))]})
 
 contract(f'{TC}::TrajectoryCalc.trajectory', props=('C10', 'C03', 'C11'),
          params=dict(self=Built(tc.TrajectoryCalc, config_shape(), used_=True), shot_info=SHOT,
